@@ -77,6 +77,55 @@ def L1(ctx, rule="L1"):
     ctx.entry_floor(rule, rule, ("for_each", "try_for_each"), "for_each_concurrent call")
 
 
+ASYNC_LOCKS = ("tokio::sync::RwLock::<T>::write", "tokio::sync::RwLock::<T>::read", "tokio::sync::Mutex::<T>::lock",
+               "tokio::sync::RwLock::<T>::write_owned", "tokio::sync::RwLock::<T>::read_owned", "tokio::sync::Mutex::<T>::lock_owned",
+               "tokio::sync::Semaphore::acquire", "tokio::sync::Semaphore::acquire_owned", "tokio::sync::Semaphore::acquire_many",
+               "futures::lock::Mutex::<T>::lock")
+SYNC_LOCKS = ("std::sync::Mutex::<T>::lock", "std::sync::RwLock::<T>::write", "std::sync::RwLock::<T>::read")
+
+
+def L4(ctx, rule="L4"):
+    """no shared lock / permit is taken before a user future is started and held while it runs: in the concurrent families a
+    per-item body acquires, ahead of the user future's await, at most the lock that belongs to that one function
+    (an element of a per-function table), and only without waiting (`try_write`)."""
+    m, fb, fl = ctx.model, ctx.fb, ctx.model.flow
+    seen = set()
+    n = 0
+    for e in m.entries:
+        if m.family(e) not in ("for_each", "try_for_each"):
+            continue
+        for b in m.per_item_bodies(e["id"]):
+            if b.id in seen or b.kind != "coroutine":
+                continue
+            seen.add(b.id)
+            uas = user_awaits(ctx, b)
+            if not uas:
+                continue
+            n += 1
+            ua = uas[0]
+            bad = []
+            for bb, t in b.calls():
+                p_ = callee_path(t) or ""
+                if p_ not in ASYNC_LOCKS and p_ not in SYNC_LOCKS:
+                    continue
+                if ua.into_bb is None or not b.dominates(bb, ua.into_bb):
+                    continue        # taken after the user future completed (bookkeeping)
+                le = strip_refs(expr_operand(b, t["args"][0])) if t["args"] else None
+                per_fn = le is not None and any(c.kind == "call" and c[1] in ("std::ops::Index::index", "std::ops::IndexMut::index_mut",
+                                                                                 "std::slice::<impl [T]>::get", "std::slice::<impl [T]>::get_mut")
+                                                for c in walk_expr(le))
+                if per_fn and p_ not in ASYNC_LOCKS:
+                    continue
+                bad.append("%s at %s%s" % (p_.split("::")[-1], b.loc(bb), "" if not per_fn else " (per-function, but waits)"))
+            ctx.check(not bad, rule, "no-shared-lock|%s" % short(b.id), m.where(b, ua.into_bb),
+                      "no shared lock or permit is acquired ahead of the user future in the per-function body",
+                      "a lock / permit shared by all functions is acquired before the user future is awaited and held across it (%s): "
+                      "functions run one (or a fixed few) at a time whatever `limit` says, and futures that wait for each other deadlock" % bad[:3])
+    ctx.counts[rule] = n
+    if n < 2:
+        ctx.unverifiable(rule, "floor", "-", "expected >= 2 per-function bodies of the concurrent families, found %d" % n)
+
+
 def L3(ctx, rule="L3"):
     """`limit` influences nothing but for_each_concurrent's limit argument: no
     channel capacity, lock or loop bound derives from it (otherwise a small
@@ -138,6 +187,26 @@ def W4(ctx, rule="W4"):
         ctx.check(ok, rule, "limit-reaches|%s" % e["name"], entry_where(e),
                   "the caller's `limit` determines for_each_concurrent's limit argument",
                   "the caller's `limit` does not reach for_each_concurrent: the concurrency is fixed by the library")
+        # `None` and `0` (both "no limit") must arrive as they are: the value is forwarded unchanged, or only ever raised to at
+        # least the number of functions
+        for (b, bb, t) in sinks:
+            if b.id not in reach:
+                continue
+            srcs = fl.sources_operand(b, t["args"][1])
+            others = [s_ for s_ in srcs if not (s_.kind == "param" and s_[3] == () and
+                                                "Into<" in (fb.bodies[s_[1]].locals[s_[2]]["s"] if s_[1] in fb.bodies else ""))]
+            bad_o = []
+            for s_ in others:
+                fine = False
+                if s_.kind == "alloc" and s_[4] in ("std::cmp::max", "std::cmp::Ord::max") and s_[1] in fb.bodies:
+                    tt = fb.bodies[s_[1]].blocks[s_[2]]["term"]
+                    ex = [strip_refs(expr_operand(fb.bodies[s_[1]], a_)) for a_ in tt["args"][:2]]
+                    fine = any(c.kind == "call" and c[1] in NODE_COUNT_FNS for x_ in ex for c in walk_expr(x_))
+                if not fine:
+                    bad_o.append(fmt_src(s_))
+            ctx.check(not bad_o, rule, "unbounded-preserved|%s|%s" % (e["name"], short(b.id)), m.where(b, bb),
+                      "for_each_concurrent's limit is the caller's value unchanged (or raised to the number of functions): None and 0 stay unbounded",
+                      "the caller's `limit` is transformed before it reaches for_each_concurrent (%s): a `None`/`0` (unbounded) request may become a finite bound" % bad_o[:3])
     if n < 1:
         ctx.unverifiable(rule, "floor", "-", "no entry point with a `limit` parameter found")
 
@@ -1708,23 +1777,24 @@ def G_rules(ctx, rule="G"):
         g_ok = False
         if gs:
             ge = strip_refs(gs[0][2][2][0])
-            # fn_graph.raw_edges() through Deref, or fn_graph.graph.raw_edges()
-            while ge.kind in ("call", "field"):
-                if ge.kind == "call" and ge[1] == "std::ops::Deref::deref":
-                    ge = strip_refs(ge[2][0])
-                elif ge.kind == "field":
-                    ge = strip_refs(ge[1])
-                else:
-                    break
+            from rules_sched import structure_roles
+            roles_g = structure_roles(ctx) or {}
+            wrong_field = []
+            # fn_graph.raw_edges() through Deref, or fn_graph.graph.raw_edges() -- not one of FnGraph's private mirrors
+            # (graph_structure / graph_structure_rev), which only agree with `graph` right after build()
             def peel(ge_):
                 while ge_.kind in ("call", "field"):
                     if ge_.kind == "call" and ge_[1] == "std::ops::Deref::deref":
                         ge_ = strip_refs(ge_[2][0])
                     elif ge_.kind == "field":
+                        if isinstance(ge_[2], int) and roles_g.get("graph") is not None and ge_[2] != roles_g["graph"] and \
+                                strip_refs(ge_[1]).kind in ("arg", "deref", "local"):
+                            wrong_field.append(ge_[2])
                         ge_ = strip_refs(ge_[1])
                     else:
                         break
                 return ge_
+            ge = peel(ge)
             cur_body = gs[0][1]
             # through crate-local helpers that return the iterator: a helper's parameter is the argument at its (inlined) call
             j = chain.index(gs[0])
@@ -1732,7 +1802,7 @@ def G_rules(ctx, rule="G"):
                 if ge.kind == "arg" and chain[k][0] == "inline:" + cur_body.id and 1 <= ge[1] <= len(chain[k][2][2]):
                     ge = peel(strip_refs(chain[k][2][2][ge[1] - 1]))
                     cur_body = chain[k][1]
-            g_ok = ge == E(("arg", 1)) and cur_body.id == fg.id
+            g_ok = ge == E(("arg", 1)) and cur_body.id == fg.id and not wrong_field
         ok2 = has_raw and not sel and tup_ok and g_ok
         if not ok2:
             why = "raw_edges of the given graph: %s/%s, adaptors %s, %s" % (has_raw, g_ok, sel, why)
